@@ -7,7 +7,7 @@ WT=/tmp/wt/regress
 export VERIF_EVIDENCE_DIR=/tmp/t/evidence_mutants VERIF_BUILD_DIR=/tmp/t/build_regress VERIF_REPO=$WT; mkdir -p $VERIF_EVIDENCE_DIR
 git -C /repo worktree remove --force $WT 2>/dev/null; git -C /repo worktree prune
 git -C /repo worktree add -q --detach $WT HEAD || exit 2
-NAMES="$@"; [ -z "$NAMES" ] && NAMES=$(ls seeded)
+NAMES="$@"; [ -z "$NAMES" ] && NAMES=$(for d in seeded/*/; do [ -f $d/meta.json ] && basename $d; done)
 for n in $NAMES; do
   d=seeded/$n
   props=$(python3 -c "import json,re;print(' '.join(re.findall(r'C\d\d', json.load(open('$d/meta.json'))['property'])))")
